@@ -1643,7 +1643,6 @@ fn process_stream_search_params<T: Read + Write>(
     }
 
     // perform the search now synchronous/blocking:
-    let mut search_idxs: Vec<DltMessageIndexType> = Vec::with_capacity(max_results);
 
     // check msgs from _processed_len to all_msgs_len
     // todo use parallel iterator
@@ -1655,6 +1654,9 @@ fn process_stream_search_params<T: Read + Write>(
     } else {
         all_msgs.len()
     };
+    // max_results is provided by the client. We cannot find more than the stream contains:
+    let mut search_idxs: Vec<DltMessageIndexType> =
+        Vec::with_capacity(std::cmp::min(max_results, stream_msgs_len));
     while i < stream_msgs_len {
         let msg: &adlt::dlt::DltMessage = if stream.filters_active {
             &all_msgs[stream.filtered_msgs[i]]
